@@ -13,6 +13,8 @@ std::mt19937 RandomTools::DEFAULT_GENERATOR(RandomTools::RANDOM_DEVICE());
 std::vector<size_t> RandomTools::randMultinomial(size_t n, const std::vector<double>& probs)
 {
   double s = VectorTools::sum(probs);
+  if (n > 0 && !(s > 0))
+    throw Exception("RandomTools::randMultinomial: the probabilities must have a positive sum.");
   double r;
   double cumprob;
   vector<size_t> sample(n);
